@@ -17,4 +17,20 @@ PROPS = {
                 technique="runtime monitor with independent IGE decrypt + SHA1-prefix oracle on random/valid/flipped answers",
                 text="DecryptExchangeAnswer must return exactly the embedded data found by the independent oracle, or an error; (nil,nil) is a violation.",
                 note="Reference IGE over crypto/aes; inputs sampled."),
+    "C13": dict(engine="cryptomon", level="exploration", design="C13", watchdog={"quick": 1200, "thorough": 5400},
+                technique="runtime monitor: real CheckGP/CheckDH/CheckDHParams/InRange/DecomposePQ decisions compared with specification-text oracles (Euler criterion, safe-prime test, strict inequalities, factors known by construction)",
+                text="CheckGP on every safe prime below 2e6 (thorough 5e7) and every prime p=3 mod 4 below L/8 x g in -1..9 and far-out g vs Euler's criterion; CheckDH on 11 re-verified 2048-bit safe primes "
+                     "(Telegram, RFC 3526/7919, generated) and ~25 mutations each plus wrong-size safe primes and half-prime moduli; CheckDHParams on the complete 19x19x10 boundary cross product per modulus; "
+                     "DecomposePQ on all pairs of the first 300 primes, balanced 32x32-bit semiprimes below 2^63, squares, 2q, unbalanced and near-limit products, each call under a logical attempt budget and a wall-clock watchdog (inconclusive).",
+                note="Trusted: math/big (Exp, ProbablyPrime, GCD), refmodel/crypto2_dh.go. Safe-prime range exhaustive below the limit, the rest sampled; DecomposePQ randomness from a seeded PCG stream."),
+    "C14": dict(engine="cryptomon", level="exploration", design="C14", watchdog={"quick": 900, "thorough": 5400},
+                technique="differential runtime monitor: real RSAPad output vs a spec-text RSA_PAD encoder fed the same random stream (byte-identical), spec-text decoder, round trip, mutation oracle",
+                text="Every data length 0..144 x seeded streams x 3 committed 2048-bit test keys (one with a modulus just above 2^2047 so the >= N retry happens on about half of the candidates): ciphertext equals the reference construction, "
+                     "same number of temp_keys consumed, both decoders return data || consumed padding; lengths > 144 refused; hashed scheme 0..235 round-trips and decrypts to SHA1(data)||data||..; bit-flipped, foreign-key and garbage ciphertexts rejected.",
+                note="Trusted: math/big, crypto/aes, crypto/sha256, crypto/sha1, refmodel (spec transcription, own IGE, CRT decrypt). Assumes the random stream is consumed as padding then 32 bytes per temp_key. Streams sampled, lengths exhaustive."),
+    "C15": dict(engine="cryptomon", level="exploration", design="C15", watchdog={"quick": 900, "thorough": 5400},
+                technique="differential runtime monitor against a spec-text SRP client plus an end-to-end reference SRP-6a verifier (correct password accepted, wrong password rejected), invalid-group and hostile-B arms",
+                text="SRP.Hash on random passwords/salts/client secrets over 11 re-verified 2048-bit safe-prime groups x every admissible g: (A, M1) byte-identical to the reference (own PBKDF2-HMAC-SHA512), accepted by the reference verifier, "
+                     "answers for a different password rejected; hostile B values do not panic and follow the formula; every invalid group (size, primality, (p-1)/2, g) is refused by Hash and NewHash; NewHash equals pad(g^x).",
+                note="Trusted: math/big, crypto/sha256, crypto/sha512, crypto/hmac, refmodel/crypto2_srp.go (transcription of core.telegram.org/api/srp). Inputs sampled; invalid groups enumerated from the committed moduli."),
 }
